@@ -104,15 +104,19 @@ def run(ctx):
                     return json.dumps({"ev": "ctrl", "name": sc["name"], "steps": sc["steps"], "entries": len(sc["steps"]), "applied": 0, "pending": 1,
                                        "stalled": 1, "signature": "crash@" + top, "serving": 0})
         except subprocess.TimeoutExpired:
-            return json.dumps({"ev": "ctrl", "name": sc["name"], "steps": sc["steps"], "entries": 0, "applied": 0, "pending": 1,
-                               "stalled": 1, "signature": "harness timeout", "serving": 0})
+            return None       # the harness has its own watchdog (6 s): hitting the outer limit says the machine is loaded
         try:
             return open(tr).read().strip().splitlines()[-1]
         except Exception:
-            return json.dumps({"ev": "ctrl", "name": sc["name"], "steps": sc["steps"], "entries": 0, "applied": 0, "pending": 1,
-                               "stalled": 1, "signature": "harness produced no event", "serving": 0})
+            return None
     with ThreadPoolExecutor(max_workers=10) as ex:
         lines = list(ex.map(one, enumerate(scs)))
+    for i, x in enumerate(lines):
+        if x is None:       # again, alone; a harness that still reports nothing is a tool failure, never a stall
+            ctx.log("control-plane scenario %d produced no event within the time limit: running it again alone" % i)
+            lines[i] = one((i, scs[i]))
+            if lines[i] is None:
+                raise vlib.NoVerdict("control-plane harness produced no event twice for %s" % json.dumps(scs[i])[:300])
     trace = ctx.path("ctrl.ndjson")
     open(trace, "w").write("\n".join(lines) + "\n")
     viols, n = vlib.validate_trace(ctx, "ControlPlaneTrace", "ControlPlaneTrace.cfg", trace, lambda l: True, chunk_events=5000)
